@@ -25,6 +25,13 @@ def gen_dir(rng, irregular=False):
     for name in rng.sample(["alpha.zo", "beta.zo", "sub/gamma.zo", "sub/deep/d.zo", "z.zo"], rng.randint(1, 4)):
         pg = pagegen.gen_page(rng, max_sections=3)
         text = pagegen.render(pg)
+        # ZID-less items whose first body word looks like a relative date or another prefix-like word
+        lines = text.split("\n")
+        for i, l in enumerate(lines):
+            m = re.match(r"([-ox~<>] (?:P\d )?)(plain|foo|Baz_1|x1) ", l)
+            if m and rng.random() < 0.3:
+                lines[i] = m.group(1) + rng.choice(["3d", "10m", "-2d", "1y", "7D", "o1", "x2"]) + " " + l[m.end():]
+        text = "\n".join(lines)
         if irregular:
             # irregular spacing after the prefix on some ZID-less items (known finding)
             lines = text.split("\n")
@@ -138,9 +145,22 @@ def check_dir(eng, rng, files, oc, irregular):
         return ok
 
 
+def witness(oc):
+    from freezegun import freeze_time
+    with Z.tmpdir("c05w_") as d:
+        write_tree(d, {"w.zo": "# w\n\no  P1   foo\n"})
+        with freeze_time(dt.datetime(2024, 6, 1, 12)):
+            Z.db_create(d)
+        rec, idx = W.key_notes(W.compile_dir(d, TODAY)), W.key_notes(W.dump_index(d))
+        oc.evaluations += 1
+        if rec != idx:
+            oc.known_hit["irregular_spacing"] = "file body %r vs index body %r" % (rec[0]["body"], idx[0]["body"])
+
+
 def run(oc, tier, seed):
     rng = random.Random(seed)
     eng = lib.Engine()
+    witness(oc)
     n = 12 if tier == "quick" else 250
     oc.rule = ("directories of 1-4 generated well-formed pages (sub-directories, sections, items with and without ZIDs, long "
                "create dates, multi-line items; a separate stream with irregular spacing after the prefix); `db create`, then "
